@@ -1311,6 +1311,12 @@ tp_thread_proc(void *data) {
 
 	tpt->tp->threads_cnt ++;
 	tpt->state = TP_THREAD_STATE_RUNNING;
+	/* tp_shutdown() may have passed this thread before it was marked as
+	 * started: then nobody will send the shutdown message. */
+	__atomic_thread_fence(__ATOMIC_SEQ_CST);
+	if (0 != tpt->tp->shutdown) {
+		tpt->state = TP_THREAD_STATE_STOPING;
+	}
 
 	snprintf(thr_name, sizeof(thr_name), "%s: %zu",
 	    tpt->tp->s.name, tpt->thread_num);
